@@ -816,7 +816,8 @@ def describe_entry(e):
             % (e['n'], list(e['values']), g, FAMILY_TEXT[e['family']],
                'each of 0.8/1/1.3' if c['gamma'] == 'all' else 'one of 0.8/1/1.3 rotating with (graph, start) for routines taking a start, all three otherwise',
                'canonical labels and every order of non-contiguous labels' if c['relabel'] == 'all' else 'one label order each (rotating with the graph index over canonical + all k! non-contiguous orders)',
-               c['depth'], 'all n!' if c['permdiv'] == 1 else 'all n! for n<=3, every %d-th of the 24 for n=4 (offset rotating)' % c['permdiv'],
+               c['depth'], ('all n!' if e['n'] <= 4 else '6 of the n! orders of 5 nodes (identity, reverse, 4 fixed random ones), all n! of fewer nodes') if c['permdiv'] == 1
+               else 'all n! for n<=3, every %d-th of the 24 for n=4 (offset rotating)' % c['permdiv'],
                ('; signed type rotating with the start partition' if c.get('qrot') else '')
                + ('; probtune: first %d draws, orders thinned %dx more%s' % (c['prob_depth'], c.get('prob_permdiv', 1), ', type rotating' if c.get('prob_qrot', c.get('qrot')) else '') if e['family'] == 'sign' and c.get('prob_depth') else '')))
 
